@@ -45,6 +45,7 @@ macro_rules! for_props {
             $m!(props::c10::C10);
             $m!(props::c10::C08Pool);
             $m!(props::c10::C01Pool);
+            $m!(props::c10::C15Pool);
             $m!(props::c18::C18);
         }
     };
